@@ -698,7 +698,7 @@ impl<'a> Run<'a> {
             self.step(ev);
         }
         self.cur = self.scn.events.len();
-        if self.mon.c01 || self.mon.c15 || self.mon.c08 {
+        if self.mon.c01 || self.mon.c15 || self.mon.c08 || self.mon.c07 {
             self.fault_sweep();
         }
     }
@@ -1536,6 +1536,9 @@ impl<'a> Run<'a> {
             if matches!(op, "mint" | "attenuate") && idx % 2 == 0 {
                 self.check_c16_byzantine(idx);
             }
+            if matches!(op, "mint" | "attenuate") && idx % 2 == 1 {
+                self.check_c16_snapshot(idx);
+            }
         }
         if self.mon.c15 {
             self.check_c15(idx, op);
@@ -1862,6 +1865,97 @@ impl<'a> Run<'a> {
                 }
             }
             (s, _) => self.violate("C08", "sealed-rejected", format!("slot {idx}: sealed token does not verify: {:?}", s.err())),
+        }
+        self.check_c08_seal_over_base(idx);
+    }
+
+    /// the same first-party history rebuilt over a base symbol table of the application's own
+    /// (build_with_key_pair takes one; such tokens are read back with from_with_symbols), then
+    /// sealed: the value seal() returns and the sealed bytes read back mean what the unsealed
+    /// token means
+    fn check_c08_seal_over_base(&mut self, idx: usize) {
+        let ghost = self.slots[idx].ghost.clone();
+        if ghost.iter().any(|g| g.external.is_some()) {
+            return;
+        }
+        let issuer = self.slots[idx].issuer;
+        let spec = self.scn.issuers[issuer].clone();
+        let mut base = biscuit_auth::datalog::SymbolTable::new();
+        for s in ["file1", "app_symbol", "x", "admin"] {
+            base.insert(s);
+        }
+        let mut token: Option<Biscuit> = None;
+        for (i, g) in ghost.iter().enumerate() {
+            let bb = match g.ast.to_builder() {
+                Ok(b) => b,
+                Err(_) => return,
+            };
+            let _ = i;
+            token = match token {
+                None => {
+                    let mut builder = BiscuitBuilder::new().merge(bb.clone());
+                    for s in &bb.scopes {
+                        builder = builder.scope(s.clone());
+                    }
+                    if let Some(id) = spec.root_key_id {
+                        builder = builder.root_key_id(id);
+                    }
+                    builder.build_with_key_pair(&spec.key.keypair(), base.clone(), &g.next.keypair()).ok()
+                }
+                Some(t) => t.append_with_keypair(&g.next.keypair(), bb).ok(),
+            };
+            if token.is_none() {
+                return;
+            }
+        }
+        let unsealed = match token {
+            Some(t) => t,
+            None => return,
+        };
+        let sealed = match unsealed.seal() {
+            Ok(s) => s,
+            Err(e) => {
+                self.violate("C08", "sealed-rejected", format!("slot {idx}: the same history over an application base symbol table cannot be sealed: {e:?}"));
+                return;
+            }
+        };
+        self.stats.bump("c08.sealed_over_base_table");
+        let root = self.root_pub(issuer);
+        let reloaded = sealed
+            .to_vec()
+            .map_err(|e| format!("{e:?}"))
+            .and_then(|b| UnverifiedBiscuit::from_with_symbols(&b, base.clone()).map_err(|e| format!("{e:?}")))
+            .and_then(|u| u.verify(root).map_err(|e| format!("{e:?}")));
+        let reloaded = match reloaded {
+            Ok(r) => r,
+            Err(e) => {
+                self.violate("C08", "sealed-rejected", format!("slot {idx}: sealed token over an application base symbol table does not read back: {e}"));
+                return;
+            }
+        };
+        for (what, t) in [("the value seal() returns", &sealed), ("the sealed bytes read back", &reloaded)] {
+            self.stats.oracle_evals += 1;
+            if Self::describe(t) != Self::describe(&unsealed) || t.revocation_identifiers() != unsealed.revocation_identifiers() {
+                self.violate(
+                    "C08",
+                    "sealed-differs",
+                    format!("slot {idx}: over an application base symbol table, {what} exposes different blocks or identifiers than the unsealed token"),
+                );
+                return;
+            }
+            for v in 0..self.scn.verifiers.len() {
+                let vs = &self.scn.verifiers[v];
+                let e1 = libeval::evaluate(Some(t), &vs.authorizer, &vs.queries, self.scn.hash_key, vs.limits, false);
+                let e2 = libeval::evaluate(Some(&unsealed), &vs.authorizer, &vs.queries, self.scn.hash_key, vs.limits, false);
+                if e1 != e2 {
+                    self.violate(
+                        "C08",
+                        "sealed-authorizes-differently",
+                        format!("slot {idx}, verifier {v}: over an application base symbol table, {what} gives {:?}, the unsealed token {:?}", e1.outcome, e2.outcome),
+                    );
+                    return;
+                }
+            }
         }
     }
 
